@@ -28,7 +28,8 @@ def _q(fam, api, table, n, wrap, flush, eos, avail, cls, tier, exact=False, hist
                                              ("e%d" % eos) if api == 0 and flush else "", avail,
                                              ("/h%d" % hist) if hist else "", tag, "/exact" if exact and not dynamic else "")
     params = dict(harness=H, units=D.UNITS, hdefines=hdef, unwind=3,
-                  unwindset=D.unwindset(n, exact=exact, dynamic=dynamic, avail=avail), witness=bool(witness and feasible))
+                  unwindset=D.unwindset(n, exact=exact, dynamic=dynamic, avail=avail), witness=bool(witness and feasible),
+                  flags=D.fs_flags(avail))
     if n >= 4:
         params["remove"] = ["compute_hash"]
     if timeout:
